@@ -84,12 +84,14 @@ def run(case, S):
         if S["exact"]:
             cfg = S["cfg"]
             dt = getattr(torch, cfg["param_dtype"])
-            init = G.make_params(torch, S["shapes"], dt, tgen(*case["seed"], "init"), scale=S["grad_scale"])
+            from . import c06
+
+            init = c06.init_params(torch, G, S, case["seed"])
             ps = [torch.nn.Parameter(p.detach().clone()) for p in init]
             opt = G.build_optimizer(ds, torch, cfg, ps)
             for t in range(S["T"]):
                 for j, (p, s) in enumerate(zip(ps, S["shapes"])):
-                    p.grad = G.grad_for(torch, tgen(*case["seed"], "g", t, j), s, dt, S["grad_kind"], S["grad_scale"] * (1 + j)) if S["presence"][t][j] else None
+                    p.grad = G.grad_for(torch, tgen(*case["seed"], "g", t, j), s, p.dtype, S["grad_kind"], S["grad_scale"] * (1 + j)) if S["presence"][t][j] else None
                 opt.step()
                 for j, (a, b) in enumerate(zip(hist[0][t], ps)):
                     if not beq(a, b.detach()):
